@@ -135,6 +135,8 @@ SHAPES = [
     ("markup_escaped", ["{i}raise make()  # \\</info>"], 0),
     ("markup_badcolor", ['{i}tag = "<fg=nope>"', "{i}raise make(tag)"], 1),
     ("latin1", ["{i}raise make('é')"], 0),
+    # the file is saved with a UTF-8 byte order mark (Windows editors): columns of line 1 are easy to get wrong
+    ("bom", ["{i}raise make(1, 'two')  # three"], 0),
     # a non-final frame whose line is the first line of a multi-line call (does not tokenize on its own) and carries markup
     ("open_paren_markup", ["{i}helper.call(  # <b></info>", "{i}    helper.boom, make", "{i})"], 0),
     ("open_paren_close_tag", ["{i}helper.call(  # x </info> y", "{i}    helper.boom, make", "{i})"], 0),
@@ -193,7 +195,10 @@ def gen_source(L, T, shape):
         lines.append(filler(len(lines) + 1, ind))
     nl = "\r\n" if shape == "crlf" else "\n"
     text = nl.join(lines) + ("" if shape == "noeol" else nl)
-    return text.encode("latin-1" if shape == "latin1" else "utf-8"), module_level
+    data = text.encode("latin-1" if shape == "latin1" else "utf-8")
+    if shape == "bom":
+        data = b"\xef\xbb\xbf" + data
+    return data, module_level
 
 
 # ------------------------------------------------------------------------------------------------
